@@ -14,6 +14,8 @@ import (
 	"os/exec"
 	"path/filepath"
 	"strings"
+	"sync"
+	"syscall"
 	"testing"
 	"time"
 
@@ -57,6 +59,10 @@ type Doc struct {
 	Property  string  `json:"property"`
 	Signature string  `json:"signature,omitempty"`
 	Case      Case    `json:"case"`
+	// Cases (optional, replay files only): further cases that belong to the same
+	// document; TestReplay executes all of them side by side and fails with the
+	// signature of the first one (in order: Case, Cases...) that fails.
+	Cases []Case `json:"cases,omitempty"`
 	Message   string  `json:"message,omitempty"`
 	Result    *Result `json:"child_result,omitempty"`
 	Note      string  `json:"note,omitempty"`
@@ -78,12 +84,10 @@ func clip(s string, n int) string {
 	return s
 }
 
-var childSeq int
 
 // runChild executes one case in a child process. A child that cannot start,
 // dies or exceeds the cap without a result is an infrastructure error.
 func runChild(c *Case) *Result {
-	childSeq++
 	base, err := os.MkdirTemp("", "c14-")
 	if err != nil {
 		return &Result{Verdict: "infra", Msg: err.Error()}
@@ -96,10 +100,13 @@ func runChild(c *Case) *Result {
 		return &Result{Verdict: "infra", Msg: err.Error()}
 	}
 	cmd := exec.Command(os.Args[0], "-test.run", "^TestChild$", "-test.timeout", "0")
-	cmd.Env = append(os.Environ(), "VERIF_CHILD_SPEC="+sp)
+	cmd.Env = append(os.Environ(), "VERIF_CHILD_SPEC="+sp, fmt.Sprintf("VERIF_CHILD_CAP_S=%d", int(capFor(c).Seconds())+20))
 	var stderr bytes.Buffer
 	cmd.Stderr = &stderr
 	cmd.Stdout = nil
+	// the child dies with this process (driver timeout, kill) and, independently,
+	// ends itself after the cap
+	cmd.SysProcAttr = &syscall.SysProcAttr{Pdeathsig: syscall.SIGKILL}
 	if err := cmd.Start(); err != nil {
 		return &Result{Verdict: "infra", Msg: "start child: " + err.Error()}
 	}
@@ -107,7 +114,7 @@ func runChild(c *Case) *Result {
 	go func() { done <- cmd.Wait() }()
 	// cap: phases (writes are fast, pauses <= 1.5 s each, stop <= 30 s per replica)
 	// + bound + stability delay + generous slack for a loaded machine
-	limit := bound(c) + time.Duration(len(c.Phases))*5*time.Second + 90*time.Second + 120*time.Second
+	limit := capFor(c)
 	var werr error
 	select {
 	case werr = <-done:
@@ -206,24 +213,57 @@ func TestReplay(t *testing.T) {
 	if err := json.Unmarshal(b, &d); err != nil {
 		t.Fatal(err)
 	}
-	n := 3
+	const n = 3
+	cases := append([]Case{d.Case}, d.Cases...)
+	// all executions run side by side (every child owns its engines, directories
+	// and ports); the verdict of one execution depends on the schedule, so each
+	// case is executed n times and the replay fails if any execution fails
+	results := make([][]*Result, len(cases))
+	var wg sync.WaitGroup
+	for ci := range cases {
+		results[ci] = make([]*Result, n)
+		for i := 0; i < n; i++ {
+			wg.Add(1)
+			go func(ci, i int) {
+				defer wg.Done()
+				results[ci][i] = runChild(&cases[ci])
+			}(ci, i)
+		}
+	}
+	wg.Wait()
 	var msgs []string
-	for i := 0; i < n; i++ {
-		r := runChild(&d.Case)
-		if r.Verdict == "infra" {
-			t.Fatalf("infrastructure: %s", r.Msg)
+	for ci := range cases {
+		for i, r := range results[ci] {
+			if r.Verdict == "infra" {
+				t.Fatalf("infrastructure: %s", r.Msg)
+			}
+			if os.Getenv("VERIF_VERBOSE") != "" {
+				r2 := *r
+				r2.Msg = clip(r2.Msg, 1500)
+				rb, _ := json.Marshal(&r2)
+				fmt.Fprintf(os.Stderr, "case %d execution %d: %s\n", ci, i+1, rb)
+			}
 		}
-		if os.Getenv("VERIF_VERBOSE") != "" {
-			rb, _ := json.Marshal(r)
-			fmt.Fprintf(os.Stderr, "execution %d: %s\n", i+1, rb)
+	}
+	for ci := range cases {
+		for i, r := range results[ci] {
+			if r.Verdict == "violation" {
+				ev.WriteReplayResult(ev.ReplayResult{File: f, Outcome: "fail", Signature: r.Sig,
+					Message: fmt.Sprintf("case %d of %d, execution %d of %d: %s", ci+1, len(cases), i+1, n, clip(r.Msg, 3000))})
+				t.Logf("replay fails (case %d, execution %d): %s", ci+1, i+1, r.Sig)
+				return
+			}
+			msgs = append(msgs, summary(r))
 		}
-		if r.Verdict == "violation" {
-			ev.WriteReplayResult(ev.ReplayResult{File: f, Outcome: "fail", Signature: r.Sig,
-				Message: fmt.Sprintf("execution %d of %d: %s", i+1, n, clip(r.Msg, 3000))})
-			t.Logf("replay fails (execution %d): %s", i+1, r.Sig)
-			return
-		}
-		msgs = append(msgs, fmt.Sprintf("%s/%dms", r.Verdict, r.ConvergeMs))
 	}
 	ev.WriteReplayResult(ev.ReplayResult{File: f, Outcome: "pass", Message: strings.Join(msgs, " ")})
+}
+
+func summary(r *Result) string { return fmt.Sprintf("%s/%dms", r.Verdict, r.ConvergeMs) }
+
+// capFor is the parent's cap for one child: write phases (writes are fast,
+// pauses <= 1.5 s each, a replica stop <= 30 s, a wedged driver step 60 s) +
+// convergence bound + stability delay + slack for a loaded machine.
+func capFor(c *Case) time.Duration {
+	return bound(c) + time.Duration(len(c.Phases))*5*time.Second + 90*time.Second + 60*time.Second
 }
